@@ -160,7 +160,7 @@ BY_CONTRACT = {
     "InterchainManager": {"id": [FULL_A, FULL_B], "chainServiceID": ["chainZ:svcZ", "chainA:svcA"], "key": ["bitxhub-id", "service-" + FULL_A]},
     "Store": {"key": ["k", "k2"], "value": ["v2"]},
     "TransactionManager": {"txId": [TXID, FULL_B + "-" + FULL_A + "-1"], "id": [TXID]},
-    "DappManager": {"id": ["$OUT-0"], "objId": ["$OUT-0"]},
+    "DappManager": {"id": ["$ADMC-0"], "objId": ["$ADMC-0"], "dappID": ["$ADMC-0", "$OUT-0"]},
     "GovStrategy": {"objId": ["service_mgr"], "eventTyp": ["update"]},
 }
 STR_POOL = ["chainA", "chainA:svcA", FULL_A, "$P0", "$GOV1", "$ADMA", "approve", "freeze", "available", "", "junk", TXID, "bitxhub-id", "@InterchainContractAddr"]
